@@ -1,15 +1,15 @@
 SPECIFICATION Spec
 CONSTANTS
   Alphabet = {97, 10}
-  MaxStream = 3
+  MaxStream = 2
   MaxChunk = 2
-  ReadIds = {2, 4, 7, 9, 11, 13, 17, 19}
-  WriteLens = {0, 2}
-  MaxWrites = 3
+  ReadIds = {2, 4, 7, 11, 13, 19}
+  WriteLens = {2}
+  MaxWrites = 2
   Grants = {1, 3}
-  MaxCredit = 6
+  MaxCredit = 3
   Mwbs = {0}
-  Ccs = {0, 1}
+  Ccs = {1}
   Conns = {0, 1}
   Ops = {"read", "deliver", "write", "grant", "close", "closeexc", "eof", "reset", "terror", "wreset", "werror", "connok", "connfail"}
 VIEW View
